@@ -20,7 +20,7 @@ def classify(case):
     # second security setup of the main task fails: conns AND repository must be back, only a profile may be stale.
     # (A repository that lost the connection is the repaired finding 8, fixed: 63d7dd9 -> not keyed, a VIOLATION.)
     rolled_back = pre.get("conns") == post.get("conns") and (pre.get("repo") or []) == (post.get("repo") or [])
-    if op.get("fail") == "main" and op.get("k") == 2 and rolled_back:
+    if op.get("kind") != "autoconnect" and op.get("fail") == "main" and op.get("k") == 2 and rolled_back:
         if viol.startswith("connect/main/") and (pre.get("prof-consumer") or []) == (post.get("prof-consumer") or []):
             return "connect-setup-fails-slot-profile-stale"
         if (viol in ("disconnect/main/active", "forget/main/active")
@@ -28,6 +28,14 @@ def classify(case):
             # same mechanism on the disconnect side (plug snap's profile regenerated without the connection, then the
             # connection is put back): reported under the existing stale-profile key, see notes/C22.md
             return "connect-setup-fails-slot-profile-stale"
+        return None
+    if op.get("kind") == "autoconnect":
+        # auto-connect from a state without active connections, undone after the second setup-profiles wrote the slot
+        # snap's profile: only the slot snap's profile may differ
+        no_active = not (pre.get("repo") or []) and not [c for c in (pre.get("conns") or []) if not c.get("undesired") and not c.get("hotplug-gone")]
+        late = op.get("fail") == "after" or (op.get("fail") == "main" and op.get("k") == 2)
+        if (no_active and late and rolled_back and (pre.get("prof-consumer") or []) == (post.get("prof-consumer") or [])):
+            return "autoconnect-undo-leaves-slot-profile-stale"
         return None
     return KEYS.get(viol)
 
@@ -47,7 +55,8 @@ SPEC = dict(
           "consumer/producer snaps with 2 plugs x 2 slots, hooks on one pair). (a) the recorded finding as a fixed replay; (b) ALL "
           "combinations of 5 persisted entry states (absent, manual, auto, undesired, hotplug-gone) x 6 operations (connect, "
           "auto-connect, disconnect, forget, auto-disconnect, hotplug-disconnect) x 6 failure points (none, hook before, 1st/2nd "
-          "security setup inside the main task, 1st/2nd task after) as one-change histories (180); (c) random initial `conns` over the "
+          "security setup inside the main task, 1st/2nd task after) as one-change histories (180), and the auto-connect change (setup-profiles + auto-connect, "
+          "base declaration allowing auto-connection with slots-per-plug: *) from the 5 entry states x 6 failure points; (c) random initial `conns` over the "
           "4 ids followed by 1-4 random changes, each with a random failure point. Observed before and after every settled change: "
           "state `conns` (auto, by-gadget, undesired, hotplug-gone, attributes kept), repo.Interfaces().Connections, and the "
           "connection sets each snap's profile was last generated for (recorded inside the backend's Setup); plus the repository "
@@ -59,8 +68,8 @@ SPEC = dict(
         "the security backend is the suite's TestSecurityBackend; a profile is abstracted to the set of connections of the snap at its last successful Setup",
     ],
     assumptions=[
-        "PARTIAL: the full statement is false in three classes (KNOWN_FINDINGS: connect-setup-fails-slot-profile-stale — which here also covers the mirror case of a disconnect task whose second setup fails —, connect-undo-drops-hotplug-gone, forget-undo-reconnects-inactive; the former fourth class, finding 8, is repaired by /repo commit 63d7dd9 and kept as a regression replay); theorems are guarded by `excluded`, each class has a `_refuted` witness and is reproduced on the real code on every run",
-        "PARTIAL: snap install/remove, auto-connect task generation (doAutoConnect), gadget connections, hotplug add/remove tasks and failures inside UNDO handlers are not modelled and not driven; auto / by-gadget / auto-disconnect / by-hotplug are exercised as flags of the connect / disconnect tasks",
+        "PARTIAL: the full statement is false in four classes (KNOWN_FINDINGS: autoconnect-undo-leaves-slot-profile-stale, connect-setup-fails-slot-profile-stale — which here also covers the mirror case of a disconnect task whose second setup fails —, connect-undo-drops-hotplug-gone, forget-undo-reconnects-inactive; the former fourth class, finding 8, is repaired by /repo commit 63d7dd9 and kept as a regression replay); theorems are guarded by `excluded`, each class has a `_refuted` witness and is reproduced on the real code on every run",
+        "PARTIAL: auto-connect is modelled and driven for an installed plug snap with a base declaration that allows every pair (slots-per-plug: *); snap install/remove (remove-profiles, discard-conns), refresh with changed plugs/slots, gadget connections, hotplug add/remove tasks and failures inside UNDO handlers are not modelled and not driven; auto / by-gadget / auto-disconnect / by-hotplug are exercised as flags of the connect / disconnect tasks",
         "both snaps are installed and all plugs and slots exist in the repository throughout (undoDisconnect's missing plug/slot branch and reloadConnections' stale-entry branch are not exercised)",
         "the policy check always allows the connection (no snap-declaration restrictions in the fixtures)",
     ],
